@@ -16,7 +16,8 @@ Scratch copies live under <outdir> (outside /repo and /verif, e.g. /tmp/automut)
 import os, re, sys, subprocess, shutil, json, hashlib
 from multiprocessing import Pool
 
-REPO = '/repo'
+REPO = os.environ.get('AUTOMUT_REPO', '/repo')
+VERIF = os.path.dirname(os.path.dirname(os.path.abspath(__file__)))
 PRISTINE = None  # snapshot of /repo taken at the start of a stage; /repo itself may be in use by other mutation runs meanwhile
 ENV = dict(os.environ, GOFLAGS='-mod=mod', GOPROXY='off', GOSUMDB='off', GOTOOLCHAIN='local')
 FILES = {
@@ -151,7 +152,7 @@ def gen_one(args):
 
 def snapshot(outdir):
     global PRISTINE
-    assert subprocess.run(['git', '-C', REPO, 'status', '--porcelain'], stdout=subprocess.PIPE).stdout == b'', '/repo is not clean'
+    assert subprocess.run(['git', '-C', REPO, 'status', '--porcelain'], stdout=subprocess.PIPE).stdout == b'', 'the repository is not clean'
     dst = os.path.join(outdir, 'pristine')
     copy_repo(dst, REPO)
     PRISTINE = dst
@@ -194,13 +195,18 @@ def check(outdir, first, last):
     for k, c in enumerate(surv[first:last]):
         if c['id'] in res:
             continue
-        apply(copy, c)
+        try:
+            apply(copy, c)
+        except AssertionError:
+            print('%s:%d skipped: the line changed since stage 1' % (c['file'], c['line']), flush=True)
+            continue
         order = FILES[c['file']].split()
-        order += [p for p in ALL if p not in order]
+        if os.environ.get('AUTOMUT_ALL'):
+            order += [p for p in ALL if p not in order]
         caught, ran = None, []
         for p in order:
             try:
-                pr = subprocess.run(['./check.sh', p, 'quick'], cwd='/verif', env=env, stdout=subprocess.PIPE, stderr=subprocess.STDOUT, timeout=1800)
+                pr = subprocess.run(['./check.sh', p, 'quick'], cwd=VERIF, env=env, stdout=subprocess.PIPE, stderr=subprocess.STDOUT, timeout=1800)
                 out = pr.stdout.decode(errors='replace')
             except subprocess.TimeoutExpired:
                 out = 'TIMEOUT'
